@@ -22,7 +22,7 @@ TECHNIQUE = 'runtime monitoring: per-program differential execution against nati
 LEVEL_TEXT = ('Held on the generated programs only: a grammar of expressions, assignments and augmented assignments, def / lambda / closures reading config names at any depth, '
               'list / dict / set / generator comprehensions, conditionals, for / while / break / continue / else, try / except / else / finally with raised and propagated exceptions, '
               'with, import / from-import, and long programs (>256 names and constants); names drawn from four pools (own definition, context symbol, top-level config key, builtin) with '
-              'deliberate shadowing; f-strings with expressions, conversions and format specs in the f\'..\', f".." and !fstr spellings; with and without a source file name; '
+              'deliberate shadowing; f-strings with expressions, conversions and format specs in the f\'..\', f".." and !fstr spellings; with and without a source file name; characters str.splitlines() breaks at but the tokenizer does not, inside literals; '
               'histories of 1-5 builds per process. Each program\'s value or exception class must equal the native one; the interpreter must never die.')
 LEVEL_NOTE = ('Trusted: CPython\'s own exec/eval on a plain dict as the reference semantics. Programs contain no ";" and no class statements (outside the statement\'s grammar); '
               'the last line is a single-line expression.')
